@@ -785,7 +785,7 @@ impl FixtureDatabase {
 
     /// Find the line number of the first yield statement in a function body.
     /// Returns None if no yield statement is found.
-    fn find_yield_line(&self, body: &[Stmt], line_index: &[usize]) -> Option<usize> {
+    pub(crate) fn find_yield_line(&self, body: &[Stmt], line_index: &[usize]) -> Option<usize> {
         for stmt in body {
             if let Some(line) = self.find_yield_in_stmt(stmt, line_index) {
                 return Some(line);
